@@ -257,6 +257,39 @@ func c07Strategies(c *Ctx) {
 			}
 		}
 	})
+	// sizing the filter zeroes it: nothing may be inserted before the last sizing
+	var inserts, sizings []ssa.CallInstruction
+	allCalls(fn, false, func(_ *ssa.Function, call ssa.CallInstruction) {
+		switch calleeName(call) {
+		case "(*ColumnWriter).writePageToFilter":
+			inserts = append(inserts, call)
+		case "(*ColumnWriter).resizeBloomFilter":
+			sizings = append(sizings, call)
+		}
+	})
+	okOrder := len(inserts) > 0 && len(sizings) > 0
+	for _, in := range inserts {
+		reach := reachableFollowingFlags(in.Block())
+		for _, sz := range sizings {
+			if sz.Block() == in.Block() {
+				// same block: the sizing must come first
+				after := false
+				for _, ins := range in.Block().Instrs {
+					if ins == in.(ssa.Instruction) {
+						after = true
+					}
+					if ins == sz.(ssa.Instruction) && after {
+						okOrder = false
+					}
+				}
+				continue
+			}
+			if reach[sz.Block()] {
+				okOrder = false
+			}
+		}
+	}
+	c.Check(rule, "flushFilterPages: the filter is sized before anything is inserted", fn.Pos(), okOrder, "resizeBloomFilter (which zeroes the filter) can run after writePageToFilter on some path: the values inserted so far (the dictionary of a column that fell back to PLAIN) are wiped and reported absent")
 	c.Check(rule, "flushFilterPages: dictionary strategy not used after the PLAIN fallback", fn.Pos(), okDict,
 		"the filter of a dictionary column is built from the dictionary alone without looking at hasSwitchedToPlain: values written after the dictionary outgrew DictionaryMaxBytes are in PLAIN pages, never reach the filter, and are reported absent")
 
